@@ -5,12 +5,9 @@ Import ListNotations.
 Open Scope Z_scope.
 
 Section Amp.
-Variable dl : Z.                     (* slack: 1 in general, 0 for histories without one-byte-payload packets *)
-Hypothesis Hdl : 0 <= dl.
-
-(* the ledger invariant of one path *)
+(* the ledger invariant of one path: while it is unvalidated, sent <= 3 * received *)
 Definition P (p : path) : Prop :=
-  pa_valid p = false -> pa_sent p <= AMPLIFICATION_FACTOR * pa_recv p + dl.
+  pa_valid p = false -> pa_sent p <= AMPLIFICATION_FACTOR * pa_recv p.
 
 Lemma find_path_P a ps p : Forall P ps -> find_path a ps = Some p -> P p.
 Proof.
@@ -80,7 +77,7 @@ Qed.
 
 Lemma send_P ps lens :
   Forall P ps ->
-  (forall mt, budget ps = Some mt -> zsum lens <= Z.max 0 (mt + dl)) ->
+  (forall mt, budget ps = Some mt -> zsum lens <= Z.max 0 mt) ->
   Forall P (send_lens ps lens).
 Proof.
   intros Hps Hb. destruct ps as [|p t]; simpl; auto.
@@ -90,34 +87,27 @@ Proof.
 Qed.
 End Amp.
 
-Definition wf_acfg (a : acfg) : Prop := 0 <= a_peer a /\ 0 <= a_host a /\ 0 <= a_token a.
+(* CID / token lengths are lengths; the CryptoPair can encrypt every packet that fits a datagram (see crypto_fits) *)
+Definition wf_acfg (a : acfg) : Prop :=
+  0 <= a_peer a /\ 0 <= a_host a /\ 0 <= a_token a /\
+  match a_cmax a with Some m => a_mds a <= m | None => True end.
 
 Definition no_close (l : list aop) : bool := negb (existsb is_close l).
 
-Lemma round_bound1 a mf mt ops :
+Lemma round_bound a mf mt ops :
   wf_acfg a ->
-  disciplined (mkCfg (a_client a) (a_mds a) (a_peer a) (a_host a) (a_token a) mf (Some mt))
-              (init_st (mkCfg (a_client a) (a_mds a) (a_peer a) (a_host a) (a_token a) mf (Some mt)) 0) (ops ++ [OpFlush]) = true ->
-  zsum (round_lens a mf (Some mt) ops) <= Z.max 0 (mt + 1).
-Proof. intros Hw HD. unfold round_lens. apply total_le_budget_slack; auto. Qed.
+  disciplined (bcfg a mf (Some mt)) (init_st (bcfg a mf (Some mt)) 0) (ops ++ [OpFlush]) = true ->
+  zsum (round_lens a mf (Some mt) ops) <= Z.max 0 mt.
+Proof. intros (?&?&?&?) HD. unfold round_lens. apply total_le_budget_strict; auto; unfold wf_cfg, crypto_fits, bcfg; cbn; auto. Qed.
 
-Lemma round_bound0 a mf mt ops :
-  wf_acfg a ->
-  disciplined (mkCfg (a_client a) (a_mds a) (a_peer a) (a_host a) (a_token a) mf (Some mt))
-              (init_st (mkCfg (a_client a) (a_mds a) (a_peer a) (a_host a) (a_token a) mf (Some mt)) 0) (ops ++ [OpFlush]) = true ->
-  nosample (mkCfg (a_client a) (a_mds a) (a_peer a) (a_host a) (a_token a) mf (Some mt))
-           (init_st (mkCfg (a_client a) (a_mds a) (a_peer a) (a_host a) (a_token a) mf (Some mt)) 0) (ops ++ [OpFlush]) = true ->
-  zsum (round_lens a mf (Some mt) ops) <= Z.max 0 (mt + 0).
-Proof. intros Hw HD HN. unfold round_lens. rewrite Z.add_0_r. apply total_le_budget_nosample; auto. Qed.
-
-(* amplification_bound with the one-byte slack: for every connection configuration (any max_datagram_size, CID
-   lengths), every history of receive / send rounds / terminations in which send rounds respect the caller
-   discipline and no round is taken through the unbudgeted _close_pending branch: every unvalidated path satisfies
-   bytes_sent <= 3 * bytes_received + 1 at all times. *)
-Theorem amplification_bound_slack :
+(* amplification_bound (strict): for every connection configuration (any max_datagram_size, CID lengths), every
+   history of receive / send rounds / terminations in which send rounds respect the caller discipline and no round is
+   taken through the unbudgeted _close_pending branch: every unvalidated path satisfies
+   bytes_sent <= 3 * bytes_received at all times.  (Before fix e93c691 only "+ 1" held.) *)
+Theorem amplification_bound_strict :
   forall (a : acfg) (l : list aop) (s : ast),
-    wf_acfg a -> Forall (P 1) (as_paths s) -> aok a s l = true -> no_close l = true ->
-    Forall (P 1) (as_paths (arun a s l)).
+    wf_acfg a -> Forall P (as_paths s) -> aok a s l = true -> no_close l = true ->
+    Forall P (as_paths (arun a s l)).
 Proof.
   intros a l. induction l as [|o t IH]; intros s Hw HP Hok Hnc; simpl; auto.
   simpl in Hok. apply andb_true_iff in Hok. destruct Hok as [Ho Ht].
@@ -126,48 +116,38 @@ Proof.
   unfold astep, aop_ok in *. destruct (as_closed s); auto. simpl in Ho.
   destruct o; simpl in *; try discriminate; auto.
   - apply recv_P; auto; lia.
-  - apply send_P; auto. intros mt Hb. rewrite Hb in *. apply round_bound1; auto.
-Qed.
-
-(* ... and the exact 3x bound for histories whose send rounds complete no packet with a one-byte payload *)
-Theorem amplification_bound_nosample :
-  forall (a : acfg) (l : list aop) (s : ast),
-    wf_acfg a -> Forall (P 0) (as_paths s) -> aok a s l = true -> anosample a s l = true -> no_close l = true ->
-    Forall (P 0) (as_paths (arun a s l)).
-Proof.
-  intros a l. induction l as [|o t IH]; intros s Hw HP Hok Hns Hnc; simpl; auto.
-  simpl in Hok. apply andb_true_iff in Hok. destruct Hok as [Ho Ht].
-  simpl in Hns. apply andb_true_iff in Hns. destruct Hns as [Hn Hnt'].
-  unfold no_close in *. simpl in Hnc. rewrite negb_orb in Hnc. apply andb_true_iff in Hnc. destruct Hnc as [Hc Hnt].
-  apply IH; auto.
-  unfold astep, aop_ok, aop_nosample in *. destruct (as_closed s); auto. simpl in Ho, Hn.
-  destruct o; simpl in *; try discriminate; auto.
-  - apply recv_P; auto; lia.
-  - apply send_P; auto; try lia. intros mt Hb. rewrite Hb in *. apply round_bound0; auto.
+  - apply send_P; auto. intros mt Hb. rewrite Hb in *. apply round_bound; auto.
 Qed.
 
 (* initial states: a server has no path yet; a client starts with its (validated) connect address *)
-Lemma P_nil dl : Forall (P dl) [].
+Lemma P_nil : Forall P [].
 Proof. constructor. Qed.
-Lemma P_client dl addr : Forall (P dl) [mkPath addr 0 0 true].
+Lemma P_client addr : Forall P [mkPath addr 0 0 true].
 Proof. constructor; [unfold P; simpl; discriminate|constructor]. Qed.
 
-(* The slack is real in the model: a server that received 1200 bytes sends 3601. *)
-Definition w_acfg : acfg := mkAcfg false 1200 8 8 0.
+(* The history that reached received = 1200, sent = 3601 before fix e93c691 (a last 1-RTT packet carrying a single
+   PING when exactly header + 1 + tag bytes of budget remain): the PING is now refused, 3572 bytes are sent. *)
+Definition w_acfg : acfg := mkAcfg false 1200 8 8 0 (Some 1500).
 Definition full_1rtt (n : Z) : list op := [OpStartPacket PT_ONE_RTT; OpStartFrame 8 4; OpPush n].
 Definition w_hist : list aop :=
   [ARecv 1 1200 [FFirst; FProcess false false None];
    ASend None (full_1rtt 1172 ++ full_1rtt 1172 ++ full_1rtt 1144);
    ASend None [OpStartPacket PT_ONE_RTT; OpStartFrame FT_PING 1]].
 
-Theorem amplification_bound_refuted :
-  exists (a : acfg) (l : list aop),
-    wf_acfg a /\ aok a (mkAst [] false) l = true /\ no_close l = true /\
-    as_paths (arun a (mkAst [] false) l) = [mkPath 1 1200 3601 false].
+Example former_amplification_witness_now_stops :
+  wf_acfg w_acfg /\ aok w_acfg (mkAst [] false) w_hist = true /\ no_close w_hist = true /\
+  as_paths (arun w_acfg (mkAst [] false) w_hist) = [mkPath 1 1200 3572 false].
 Proof.
-  exists w_acfg, w_hist. split; [unfold wf_acfg; cbn; lia|].
-  split; [vm_compute; reflexivity|]. split; vm_compute; reflexivity.
+  split; [unfold wf_acfg; cbn; lia|]. split; [vm_compute; reflexivity|]. split; vm_compute; reflexivity.
 Qed.
+
+(* the bound is tight: a history reaching sent = 3 * received exactly *)
+Example amplification_bound_tight :
+  let l := [ARecv 1 1200 [FFirst; FProcess false false None];
+            ASend None (full_1rtt 1172 ++ full_1rtt 1172 ++ full_1rtt 1172)] in
+  aok w_acfg (mkAst [] false) l = true /\ no_close l = true /\
+  as_paths (arun w_acfg (mkAst [] false) l) = [mkPath 1 1200 3600 false].
+Proof. repeat split; vm_compute; reflexivity. Qed.
 
 (* The _close_pending branch sets no budget: with it the bound fails by more than the slack. *)
 Definition w_close : list aop :=
@@ -184,6 +164,6 @@ Proof.
 Qed.
 
 Example amplification_hyps_satisfiable :
-  aok w_acfg (mkAst [] false) (firstn 2 w_hist) = true /\ anosample w_acfg (mkAst [] false) (firstn 2 w_hist) = true /\
+  aok w_acfg (mkAst [] false) (firstn 2 w_hist) = true /\
   no_close (firstn 2 w_hist) = true /\ as_paths (arun w_acfg (mkAst [] false) (firstn 2 w_hist)) = [mkPath 1 1200 3572 false].
 Proof. repeat split; vm_compute; reflexivity. Qed.
